@@ -315,3 +315,9 @@ Proof.
   destruct (inv_terminal P WF h c0 c (inv_star P WF h c0 Hs _ _ Hstar (inv_init P h c0)) Hterm) as [Hfin Hst].
   split; [exact Hfin|]. split; [exact Hst|]. intros [_ Hd]. unfold finished in Hfin. congruence.
 Qed.
+
+Theorem schedules_terminate {bstate value grad : Type} (P : params bstate value grad) :
+  wf_config P ->
+  (forall c c', sstep P c c' -> measure P c' < measure P c) /\
+  (forall c, exists c', sstar P c c' /\ terminal P c').
+Proof. intros WF. split; [exact (sstep_decreases P WF) | exact (maximal_schedule_exists P WF)]. Qed.
